@@ -1,34 +1,21 @@
 /*
- * C04-3: every prefix PDU a successful rtr_receive_pdu can deliver -- with HOSTILE field values
- * (prefix length 0 or 33..255, max length < length, flags 0..255, host bits set) -- applied through
- * the REAL rtr_update_pfx_table to the REAL trie (arbitrary Inv-valid pre-state), followed by an
- * arbitrary pfx_table_validate: no invalid memory access, no undefined shift, no assertion, returns.
+ * C04-3: what a hostile prefix PDU can do to the REAL trie.  rtr_prefix_pdu_2_pfx_record() copies the PDU's
+ * fields into a pfx_record unchanged, so the record below stands for "whatever a cache can send":
+ * prefix length 0..255, max length 0..255, host bits set, any AS.  It is added to / removed from an
+ * arbitrary Inv-valid table and an arbitrary validation follows -- with all CBMC memory-safety and
+ * undefined-shift checks on, once as shipped (-DNDEBUG) and once with rtrlib's asserts as obligations.
+ *
+ * -DLENGTHS_CHECKED: the lengths are within the address width and min <= max, i.e. what
+ * rtr_update_pfx_table lets through (asserted in the rtr_sync unit: "a prefix record with a length
+ * beyond the address width never reaches the prefix table").
  */
-#include "verif.h"
-
-/* packets.c first (static rtr_update_pfx_table), then the trie library (includes trie-pfx.c) */
-#include "rtrlib/rtr/packets.c"
-
-#include "libc_model.h"
-#define STREAM_LEN 8
-#define SENT_MAX 64
-#include "wire.h"
 #include "trie_lib.h"
-
-int lrtr_get_monotonic_time(time_t *s)
-{
-	*s = 1;
-	return 0;
-}
 
 static struct pfx_table T;
 static struct tl_snap S0;
 
 void harness(void)
 {
-	struct rtr_socket sock;
-	struct tr_socket tr;
-
 	vm_install();
 	pfx_table_init(&T, NULL);
 	tl_shape_on = true;
@@ -37,51 +24,38 @@ void harness(void)
 	T.ipv6 = tl_template(LRTR_IPV6, 0, 1);
 	tl_snapshot(&T, &S0);
 	VASSUME(tl_sinv(&S0, TE));
-	sock.tr_socket = &tr;
-	sock.version = 1;
-	sock.state = RTR_SYNC;
-	sock.connection_state_fp = NULL;
-	sock.pfx_table = &T;
-	w_sock = &sock;
-	w_send_may_fail = true;
 
-	bool v6 = ND_BOOL("pdu.v6");
-	union {
-		struct pdu_ipv4 p4;
-		struct pdu_ipv6 p6;
-	} u;
+	struct pfx_record r;
 
-	if (!v6) {
-		u.p4.ver = 1;
-		u.p4.type = IPV4_PREFIX;
-		u.p4.reserved = 0;
-		u.p4.len = 20;
-		u.p4.flags = ND(uint8_t, "flags");
-		u.p4.prefix_len = ND(uint8_t, "plen");
-		u.p4.max_prefix_len = ND(uint8_t, "mlen");
-		u.p4.zero = ND(uint8_t, "zero");
-		u.p4.prefix = ND(uint32_t, "prefix");
-		u.p4.asn = ND(uint32_t, "asn");
+#ifdef REC_V6
+	r.prefix.ver = LRTR_IPV6;
+#else
+	r.prefix.ver = LRTR_IPV4;
+#endif
+	if (r.prefix.ver == LRTR_IPV4) {
+		r.prefix.u.addr4.addr = ND(uint32_t, "rec.addr");
 	} else {
-		u.p6.ver = 1;
-		u.p6.type = IPV6_PREFIX;
-		u.p6.reserved = 0;
-		u.p6.len = 32;
-		u.p6.flags = ND(uint8_t, "flags");
-		u.p6.prefix_len = ND(uint8_t, "plen");
-		u.p6.max_prefix_len = ND(uint8_t, "mlen");
-		u.p6.zero = ND(uint8_t, "zero");
 		for (int i = 0; i < 4; i++)
-			u.p6.prefix[i] = ND(uint32_t, "prefix");
-		u.p6.asn = ND(uint32_t, "asn");
+			r.prefix.u.addr6.addr[i] = ND(uint32_t, "rec.addr");
 	}
-	int rc = rtr_update_pfx_table(&sock, &T, &u);
+	r.asn = ND(uint32_t, "rec.asn");
+	r.min_len = ND(uint8_t, "rec.len");
+	r.max_len = ND(uint8_t, "rec.maxlen");
+	r.socket = tl_nd_socket("rec.sock");
+#ifdef LENGTHS_CHECKED
+	VASSUME(r.min_len <= tl_width(r.prefix.ver) && r.max_len <= tl_width(r.prefix.ver) && r.min_len <= r.max_len);
+#endif
+	int rc;
 
-	VASSERT(rc == RTR_SUCCESS || rc == RTR_ERROR, "C04: applying a hostile prefix PDU returns");
-	/* an arbitrary query afterwards */
+	if (ND_BOOL("announce"))
+		rc = pfx_table_add(&T, &r);
+	else
+		rc = pfx_table_remove(&T, &r);
+	VASSERT(rc == PFX_SUCCESS || rc == PFX_DUPLICATE_RECORD || rc == PFX_RECORD_NOT_FOUND, "C04: applying the record returns a documented code");
+
 	struct lrtr_ip_addr q;
 
-	q.ver = ND_BOOL("q.v6") ? LRTR_IPV6 : LRTR_IPV4;
+	q.ver = r.prefix.ver; /* the query goes to the family that was just modified */
 	if (q.ver == LRTR_IPV4) {
 		q.u.addr4.addr = ND(uint32_t, "q.addr");
 	} else {
@@ -91,8 +65,8 @@ void harness(void)
 	uint8_t qlen = ND(uint8_t, "q.len");
 	enum pfxv_state res;
 
-	VASSUME(qlen <= (q.ver == LRTR_IPV4 ? 32 : 128));
+	VASSUME(qlen <= tl_width(q.ver));
 	rc = pfx_table_validate(&T, ND(uint32_t, "q.asn"), &q, qlen, &res);
-	VASSERT(rc == PFX_SUCCESS, "C04: validation after a hostile PDU returns");
+	VASSERT(rc == PFX_SUCCESS, "C04: validation after the record was applied returns");
 	VWITNESS("pdu_to_trie end");
 }
